@@ -19,7 +19,7 @@ ID = 'C01'
 LEVEL = 'model_checking'
 ENGINE = 'E1 stateless schedule explorer on live petl views'
 RULE = ('world = catalogue view over immutable tuple sources, and over list-typed sources (list header, list rows, '
-        'fresh per world); events open(i)/next(i); all interleavings for 2 '
+        'fresh per world); events open(i)/next(i), and one clearcache() at any point for the views that offer it (cache, sort); all interleavings for 2 '
         'iterators, deviation-bounded (mid-pass switches) for 3; x warm start (cold / after full pass / after '
         'pass abandoned at item 2); node = event history; fresh full pass checked in every node. A node is '
         'non-trivial when at least two iterators are mid-pass (delivered >=1 item, not exhausted) or one is '
@@ -31,15 +31,34 @@ ASSUMPTIONS = ['sources are small (1-4 data rows); at most 3 live iterators',
 WARM = ('cold', 'afterfull', 'afterpartial')
 
 
+CLEARABLE = None
+
+
+def setup(tier, seed):
+    """Which catalogue views offer clearcache() (CacheView, SortView)."""
+    global CLEARABLE
+    CLEARABLE = set()
+    for o in eligible():
+        if not o.kinds or 'ctx' in o.tags:
+            continue
+        try:
+            v = o.build([C.table(kd, 1) for kd in o.kinds])
+        except Exception:
+            continue
+        if hasattr(v, 'clearcache'):
+            CLEARABLE.add(o.name)
+
+
 def eligible():
     return [o for o in C.OPS if not (o.tags & {'eager', 'notee'})
             and ('c02only' not in o.tags or 'presorted' in o.tags)]
 
 
 class Harness(object):
-    def __init__(self, opname, n, k, warm, tag='', src='tuple'):
+    def __init__(self, opname, n, k, warm, tag='', src='tuple', clear=False):
         self.op = C.BY_NAME[opname]
         self.src = src
+        self.clear = clear
         self.n = n
         self.k = k
         self.warm = warm
@@ -74,7 +93,7 @@ class Harness(object):
 
     def reset(self):
         w = {'view': self._build(), 'its': {}, 'pos': {}, 'done': {}, 'last': None, 'lastpos': None,
-             'switches': 0}
+             'switches': 0, 'clears': 0}
         if self.warm == 'afterfull':
             for _ in w['view']:
                 pass
@@ -108,10 +127,20 @@ class Harness(object):
         m = len(w['its'])
         if m < self.k:
             out.append((('open', m), cost))
+        if self.clear and w['clears'] < 1 and hasattr(w['view'], 'clearcache'):
+            # the public clearcache() of the caching views, at most once per history, at any point
+            out.append((('clear', -1), 0))
         return out
 
     def apply(self, w, ev):
         kind, i = ev
+        if kind == 'clear':
+            w['clears'] += 1
+            try:
+                w['view'].clearcache()
+                return ('cleared',)
+            except Exception as e:
+                return ('exc-at-clearcache', type(e).__name__, env.excmsg(e))
         if kind == 'open':
             try:
                 w['its'][i] = iter(w['view'])
@@ -140,6 +169,10 @@ class Harness(object):
 
     def step_check(self, w, ev, obs):
         kind, i = ev
+        if kind == 'clear':
+            if obs != ('cleared',):
+                return ('cleared', obs, 'clearcache() raised')
+            return None
         if kind == 'open':
             if obs != ('opened',):
                 return ('iterator', obs, 'iter(view) raised: it%d' % i)
@@ -185,7 +218,7 @@ def _vdig(obj, depth):
 
 
 def config_of(h, bound):
-    return {'op': h.op.name, 'n': h.n, 'k': h.k, 'warm': h.warm, 'bound': bound, 'src': h.src}
+    return {'op': h.op.name, 'n': h.n, 'k': h.k, 'warm': h.warm, 'bound': bound, 'src': h.src, 'clear': h.clear}
 
 
 def items(tier, seed):
@@ -201,6 +234,12 @@ def items(tier, seed):
             out.append({'op': o.name, 'n': n2, 'k': 2, 'warm': warm, 'bound': None})
         # three iterators: shared state lives in the 'stateful' views, the others are pure generators
         out.append({'op': o.name, 'n': n3, 'k': 3, 'warm': 'cold', 'bound': 2 if stateful else 1})
+        if o.name in CLEARABLE:
+            # caching views with a public clearcache(): one call at any point of the history
+            out.append({'op': o.name, 'n': n3, 'k': 2, 'warm': 'cold', 'bound': 2 if tier == 'quick' else None,
+                        'clear': True})
+            out.append({'op': o.name, 'n': n3, 'k': 2, 'warm': 'afterfull', 'bound': 1 if tier == 'quick' else None,
+                        'clear': True})
         if o.kinds:
             # the same view over list-typed sources (list header, list rows): passes that edit the source in place
             out.append({'op': o.name, 'n': n2, 'k': 2, 'warm': 'cold', 'bound': None if tier == 'thorough' else 1,
@@ -240,7 +279,8 @@ def bounds(tier, seed):
 
 
 def run_item(item, acc):
-    h = Harness(item['op'], item['n'], item['k'], item['warm'], src=item.get('src', 'tuple'))
+    h = Harness(item['op'], item['n'], item['k'], item['warm'], src=item.get('src', 'tuple'),
+                clear=item.get('clear', False))
     cfg = dict(item)
     st = explore.explore(h, item['bound'], acc, lambda hist: {'config': cfg, 'history': hist},
                          group_prefix='%s | ' % item['op'], count_nontrivial=h.nontrivial)
@@ -255,7 +295,8 @@ def run_item(item, acc):
 
 def replay(case):
     cfg = case['config']
-    h = Harness(cfg['op'], cfg['n'], cfg['k'], cfg['warm'], tag='r', src=cfg.get('src', 'tuple'))
+    h = Harness(cfg['op'], cfg['n'], cfg['k'], cfg['warm'], tag='r', src=cfg.get('src', 'tuple'),
+                clear=cfg.get('clear', False))
     hist = [tuple(e) for e in case['history']]
     r = explore.replay(h, hist)
     shutil.rmtree(h.dir, ignore_errors=True)
